@@ -291,6 +291,27 @@ theorem relay_streams (ack : Bool) (target : Str) :
     · intro m d hd hs; exact absurd ((passthrough_relays target m d).2.mpr hd) hs
     · intro m d hd hs; exact absurd ((passthrough_relays target m d).2.mp hs) hd
 
+/-- the Requeuer seen as a per-message relay function (input: wait-cancelled flag, topic generator result, message) -/
+def rqRelay (a : Bool × TopicGen × Msg) (dest : POut) : Out :=
+  ⟨(requeuer a.1 a.2.1 dest a.2.2).pubs.map (fun p => (p.1, [p.2])), (requeuer a.1 a.2.1 dest a.2.2).settle⟩
+
+/-- the same for Requeuer streams (any mix of topic errors, cancelled waits, prior counters and destination failures) -/
+theorem requeuer_streams (items : List ((Bool × TopicGen × Msg) × POut)) :
+    accepted rqRelay items =
+      (items.filter (fun it => (rqRelay it.1 it.2).settle == .ack)).flatMap (fun it => (rqRelay it.1 it.2).pubs) := by
+  apply stream_accepted_eq_acked
+  · intro a d hd hs
+    rcases a with ⟨w, tg, m⟩
+    cases w with
+    | true => simp [rqRelay, requeuer]
+    | false =>
+      cases tg with
+      | err => simp [rqRelay, requeuer]
+      | ok t => exact absurd ((requeuer_settle false (.ok t) d m).mpr ⟨rfl, ⟨t, rfl⟩, hd⟩) hs
+  · intro a d hd hs
+    rcases a with ⟨w, tg, m⟩
+    exact absurd ((requeuer_settle w tg d m).mp hs).2.2 hd
+
 /-! ### non-vacuity -/
 
 private def m1 : Msg := ⟨ascii "u1", ascii "data", [(ascii "k", ascii "v"), (retriesKey, ascii "+5")]⟩
@@ -311,6 +332,8 @@ example : (FanInCfg.mk [ascii "a", ascii "b"] (ascii "t")).valid = true ∧ (Fan
 example : (wrap (ascii "orders") m1).utf8 = true ∧ validUtf8 [0xE2, 0x82, 0xAC] = true ∧ validUtf8 [0xFF] = false ∧
     validUtf8 [0xED, 0xA0, 0x80] = false ∧ validUtf8 [0xC0, 0x80] = false := by decide
 example : (fwdPublish [] (ascii "orders") [m1] .ok).calls = [(ascii "forwarder_topic", [wrap (ascii "orders") m1])] := by decide
+example : accepted rqRelay [((false, .ok (ascii "t"), m1), .ok), ((false, .err, m1), .ok), ((false, .ok (ascii "t"), m1), .fail [])] =
+    [(ascii "t", [⟨ascii "u1", ascii "data", [(retriesKey, ascii "6"), (ascii "k", ascii "v")]⟩])] := by decide
 example : accepted (passthrough (ascii "t")) [(m1, .ok), (m1, .fail []), (m1, .ok)] = [(ascii "t", [m1]), (ascii "t", [m1])] := by decide
 
 end Wm.Relay
